@@ -88,6 +88,9 @@ def ideal_config(rng, n, k):
         gram = [[G.dotF(a, b) for b in T] for a in T]
         if Q.det(gram) == 0:
             continue
+        # bounded condition: the directions of the affine hull are well separated
+        if np.linalg.svd(np.array([[float(x) for x in t] for t in T]), compute_uv=False)[-1] < 0.05:
+            continue
         if any(x[0] > F(9, 10) for x in ks):
             continue
         return ks, m
